@@ -1307,6 +1307,7 @@ Definition op_good (sch sch1 : schema) (o : op) : Prop :=
   | OReplace f a => match nth_error sch f with Some fd => arg_nice (snd fd) a | None => True end
   | OAdd _ k l => Forall (mb_nice k) l
   | ODict | OPandas => names_ok sch
+  | OAddT1 s1 _ k l => s1 = sch1 /\ Forall (mb_nice k) l
   | _ => True
   end.
 (* what the specification demands (s_step) against what the model does (m_step); exact: a table where a table is
@@ -1413,6 +1414,12 @@ Proof.
     unfold E at 1, erase_rows. rewrite s_index_map. destruct (s_index (m_to_rows cur) i); simpl; split; try exact I. reflexivity.
   - (* iter *)
     split; [reflexivity|exact I].
+  - (* add_fields on the other operand *)
+    destruct Hg as [-> Hg]. rewrite (mb_nice_ok_forallb _ _ Hg). unfold m_add, fix3_add_empty.
+    assert (R := add_step sch1 name k l t1 HI1 Hg).
+    destruct (m_add_gen true k l t1) as [t'|]; simpl.
+    + destruct R as [It R]. rewrite R. simpl. split; [reflexivity|exact It].
+    + rewrite R. simpl. split; exact I.
 Qed.
 
 (* ====================================================================== whole programs *)
